@@ -1,26 +1,104 @@
 import BobEM.Model.Basic
--- k-means kernel probe (import-free)
+import BobEM.Model.Loop
+/-! k-means (`kmeans.py`): distances, assignment, E-step, M-step, fit loop, cluster variances and
+weights, and the GMM initialisation derived from them.  Import-free and polymorphic in the scalar. -/
 namespace BobEM
 section
-variable {α : Type} [Add α] [Mul α] [Sub α] [Div α] [OfNat α 0] [OfNat α 1] [LT α] [DecidableLT α]
-
+variable {α : Type} [Add α] [Mul α] [Sub α] [Div α] [Neg α] [OfNat α 0] [OfNat α 1] [LT α] [DecidableLT α]
+  [LE α] [DecidableLE α] [Max α] [Transc α]
 
 /-- np.argmin over axis 0: first index of a minimum -/
 def argminFin (K : Nat) (d : Fin (K+1) → α) : Fin (K+1) :=
   Fin.foldl K (fun best i => if d i.succ < d best then i.succ else best) 0
 
+/-- squared Euclidean distance (`cdist(..., 'sqeuclidean')`) -/
 def sqDist {D : Nat} (x c : Fin D → α) : α := sumFin D fun j => (x j - c j) * (x j - c j)
+/-- the per-centroid Dask form `np.sum((means[i] - x) ** 2, axis=-1)` -/
+def sqDistDask {D : Nat} (x c : Fin D → α) : α := sumFin D fun j => (c j - x j) * (c j - x j)
 
-/-- kmeans.e_step on one block: counts, sums, sum of min distances (D1 repair) -/
+variable {K D : Nat}
+/-- `get_centroids_distance`: one row per centroid, one column per sample -/
+def distances (cent : Fin (K+1) → Fin D → α) (xs : List (Fin D → α)) : Fin (K+1) → List α :=
+  fun k => xs.map fun x => sqDist x (cent k)
+/-- `get_closest_centroid_index` for one sample -/
+def assign (cent : Fin (K+1) → Fin D → α) (x : Fin D → α) : Fin (K+1) :=
+  argminFin K (fun k => sqDist x (cent k))
+/-- `predict` -/
+def predict (cent : Fin (K+1) → Fin D → α) (xs : List (Fin D → α)) : List (Fin (K+1)) := xs.map (assign cent)
+
+/-- kmeans.e_step on one block: counts (`np.bincount`), per-cluster sums, and the **sum** of the
+minimum distances (the pinned commit returned their per-block *mean*: defect D1) -/
 structure KStats (K D : Nat) (α : Type) where
-  n : Fin K → α
+  n : Fin K → Nat
   sums : Fin K → Fin D → α
   dist : α
 
-def kEStep {K D : Nat} (cent : Fin (K+1) → Fin D → α) (xs : List (Fin D → α)) : KStats (K+1) D α :=
-  let a := fun x => argminFin K (fun k => sqDist x (cent k))
-  { n := fun k => lsum (xs.map fun x => if a x = k then 1 else 0)
-    sums := fun k j => lsum (xs.map fun x => if a x = k then x j else 0)
-    dist := lsum (xs.map fun x => sqDist x (cent (a x))) }
+def kEStep (cent : Fin (K+1) → Fin D → α) (xs : List (Fin D → α)) : KStats (K+1) D α :=
+  { n := fun k => xs.countP fun x => assign cent x = k
+    sums := fun k j => lsum (xs.map fun x => if assign cent x = k then x j else 0)
+    dist := lsum (xs.map fun x => sqDist x (cent (assign cent x))) }
+
+def KStats.add (a b : KStats K D α) : KStats K D α :=
+  { n := fun k => a.n k + b.n k, sums := fun k j => a.sums k j + b.sums k j, dist := a.dist + b.dist }
+def KStats.zero : KStats K D α := { n := fun _ => 0, sums := fun _ _ => 0, dist := 0 }
+
+/-- kmeans.m_step: centroid = sum / count; a cluster that attracted no sample keeps its centroid
+(the pinned commit divided 0/0: defect D2); criterion = distance sum / number of samples -/
+def kMStep (cent : Fin K → Fin D → α) (st : KStats K D α) (nSamples : Nat) : (Fin K → Fin D → α) × α :=
+  (fun k j => if st.n k = 0 then cent k j else st.sums k j / Transc.ofNat (st.n k),
+   st.dist / Transc.ofNat nSamples)
+
+/-- one iteration of `KMeansMachine.fit` on row blocks (one block = NumPy input) -/
+def kIter (blocks : List (List (Fin D → α))) (cent : Fin (K+1) → Fin D → α) : (Fin (K+1) → Fin D → α) × α :=
+  kMStep cent ((blocks.map (kEStep cent)).foldl KStats.add KStats.zero) blocks.flatten.length
+
+/-- `KMeansMachine.fit` after initialisation: returns the centroids and the number of iterations;
+the reported `average_min_distance` is the criterion of the last iteration -/
+def kFit (thr : Option α) (fuel : Nat) (c0 : α) (cent0 : Fin (K+1) → Fin D → α)
+    (blocks : List (List (Fin D → α))) : (Fin (K+1) → Fin D → α) × Nat :=
+  emLoop (kIter blocks) (convStop thr) fuel 0 c0 cent0
+
+/-- the pinned commit's criterion: per-block *means* summed, divided by the total count (D1) -/
+def kCritOld (cent : Fin (K+1) → Fin D → α) (blocks : List (List (Fin D → α))) : α :=
+  lsum (blocks.map fun b => (kEStep cent b).dist / Transc.ofNat b.length) / Transc.ofNat blocks.flatten.length
+
+/-- `accumulate_indices_means_vars` on one block: assignments, and per cluster the sums of the
+deviations from the assigned centroid and of their squares (the pinned commit accumulated raw
+`x` and `x²`, which cancels catastrophically far from the origin: defect D20) -/
+structure VStats (K D : Nat) (α : Type) where
+  cnt : Fin K → Nat
+  msum : Fin K → Fin D → α
+  vsum : Fin K → Fin D → α
+
+def vAccum (cent : Fin (K+1) → Fin D → α) (xs : List (Fin D → α)) : VStats (K+1) D α :=
+  { cnt := fun k => xs.countP fun x => assign cent x = k
+    msum := fun k j => lsum (xs.map fun x => if assign cent x = k then x j - cent k j else 0)
+    vsum := fun k j => lsum (xs.map fun x => if assign cent x = k then (x j - cent k j) * (x j - cent k j) else 0) }
+def VStats.add (a b : VStats K D α) : VStats K D α :=
+  { cnt := fun k => a.cnt k + b.cnt k, msum := fun k j => a.msum k j + b.msum k j, vsum := fun k j => a.vsum k j + b.vsum k j }
+def VStats.zero : VStats K D α := { cnt := fun _ => 0, msum := fun _ _ => 0, vsum := fun _ _ => 0 }
+
+/-- `reduce_indices_means_vars`: weights = assigned fractions, variances = E[dev²] − E[dev]² -/
+def vReduce (st : VStats K D α) : (Fin K → Fin D → α) × (Fin K → α) :=
+  let total := sumFin K fun k => (Transc.ofNat (st.cnt k) : α)
+  let safe := fun k => if st.cnt k = 0 then (1 : α) else Transc.ofNat (st.cnt k)
+  (fun k j => st.vsum k j / safe k - (st.msum k j / safe k) * (st.msum k j / safe k),
+   fun k => Transc.ofNat (st.cnt k) / total)
+
+/-- `get_variances_and_weights_for_each_cluster` on row blocks -/
+def varsWeights (cent : Fin (K+1) → Fin D → α) (blocks : List (List (Fin D → α))) :
+    (Fin (K+1) → Fin D → α) × (Fin (K+1) → α) :=
+  vReduce ((blocks.map (vAccum cent)).foldl VStats.add VStats.zero)
+
+/-- `GMMMachine.initialize_gaussians` (ML): means = centroids, variances = cluster variances
+clamped at the machine's floors by the setter, weights = cluster weights -/
+structure GmmInit (K D : Nat) (α : Type) where
+  weights : Fin K → α
+  means : Fin K → Fin D → α
+  variances : Fin K → Fin D → α
+def gmmInitFromKMeans (cent : Fin (K+1) → Fin D → α) (blocks : List (List (Fin D → α)))
+    (floor : Fin (K+1) → Fin D → α) : GmmInit (K+1) D α :=
+  let vw := varsWeights cent blocks
+  { weights := vw.2, means := cent, variances := fun k j => max (floor k j) (vw.1 k j) }
 end
 end BobEM
